@@ -1,6 +1,6 @@
 (* Correspondence driver: evaluates the extracted Coq models (and specs) on the cases the Go
    harness recorded from the implementation, and reports every difference. *)
-open Conv
+open Cnv
 open Absparse
 module L = Stdlib.List
 module S = Stdlib.String
@@ -462,4 +462,5 @@ let pure_main () =
 let () =
   match Array.to_list Sys.argv with
   | _ :: "trace" :: files -> Tracep.run_traces files
+  | _ :: "core" :: files -> Corelock.run_core files
   | _ -> pure_main ()
